@@ -30,7 +30,7 @@ ASSUMPTIONS = [
     "explicit rejection = innermost frame is a raise statement of ValueError/NotImplementedError/RuntimeError (in yadism or in "
     "LeProHQ/eko/adani below it)",
 ]
-BUDGET = {"quick": {"examples": 3200, "wall": 420}, "thorough": {"examples": 24000, "wall": 3400}}
+BUDGET = {"quick": {"examples": 3200, "wall": 420}, "thorough": {"examples": 24000, "wall": 2400}}
 MANDATORY = {
     t: ["valid", "invalid:x<=0", "invalid:x>1", "invalid:Q2<=0", "invalid:below-grid", "invalid:nan", "tmc:0", "tmc:1", "tmc:2", "tmc:3",
         "scheme:ZM-VFNS", "scheme:FFNS", "scheme:FFN0", "scheme:FONLL-FFNS", "scheme:FONLL-FFN0", "xs", "heavylight", "outcome:finite",
